@@ -379,6 +379,9 @@ pub const TEMPLATES: &[&str] = &[
     // one in malleable mode (the signature-free dissatisfaction costs three key pushes), under or_d / or_c
     "or_d(or_i(and_v(v:after(9),and_v(v:pk(@0),pk(@4))),and_b(pkh(@1),a:and_b(pkh(@2),a:pkh(@3)))),pk(@5))",
     "t:or_c(or_i(and_v(v:older(10),and_v(v:pk(@0),pk(@4))),and_b(pkh(@1),a:and_b(pkh(@2),a:pkh(@3)))),v:pk(@5))",
+    // seeded change C03-9: a threshold whose signature-free child costs more than a signature while
+    // k+1 signatures are available (the non-malleable choice must not depend on weight alone)
+    "thresh(2,pk(@0),s:pk(@1),s:pk(@2),al:and_v(v:sha256(#s0),and_v(v:sha256(#s1),tv:sha256(#s2))))",
 ];
 
 fn mk_tmpl<Ctx: ScriptContext>(w: &World, t: usize, tap: bool, sane: bool) -> Option<Miniscript<Key, Ctx>> {
@@ -551,6 +554,12 @@ pub fn lock_envs(c: &Case, rng: &mut Rng) -> Vec<TxEnv> {
     let l = pick(&c.abs, rng);
     let s = pick(&c.rel, rng);
     v.push(TxEnv { lock_time: l.filter(|x| *x > 0), sequence: s.filter(|x| *x > 0) });
+    // seeded change C01-9: an nSequence with the BIP68 disable flag meets no relative lock, whatever
+    // its low bits say (the caller hands such a Sequence to the library's own Satisfier impl)
+    if let Some(r) = maxrel_h.or(maxrel_t) {
+        v.push(TxEnv { lock_time: None, sequence: Some(0x8000_0000 | r) });
+        v.push(TxEnv { lock_time: None, sequence: Some(if r & 1 == 0 { 0xffff_fffe } else { 0xffff_ffff }) });
+    }
     v
 }
 
